@@ -177,8 +177,8 @@ func (t *SemVerType) Default() px.Type {
 }
 
 func (t *SemVerType) Equals(o interface{}, g px.Guard) bool {
-	_, ok := o.(*SemVerType)
-	return ok
+	ot, ok := o.(*SemVerType)
+	return ok && t.vRange.Equals(ot.vRange)
 }
 
 func (t *SemVerType) Get(key string) (px.Value, bool) {
@@ -232,7 +232,7 @@ func (t *SemVerType) Parameters() []px.Value {
 	if t.vRange.Equals(semver.MatchAll) {
 		return px.EmptyValues
 	}
-	return []px.Value{stringValue(t.vRange.String())}
+	return []px.Value{stringValue(t.vRange.NormalizedString())}
 }
 
 func (t *SemVerType) ToString(b io.Writer, s px.FormatContext, g px.RDetect) {
